@@ -413,11 +413,11 @@ impl CompressedResponse {
         };
 
         // `*;q=0` refuses every coding which isn't listed, including identity
-        let disable_identity = values
-            .iter()
-            .any(|v| v.value == "identity" && v.quality == 0.0)
+        let is_identity =
+            |v: &utils::ValueQualitySet| v.value.eq_ignore_ascii_case("identity");
+        let disable_identity = values.iter().any(|v| is_identity(v) && v.quality == 0.0)
             || (values.iter().any(|v| v.value == "*" && v.quality == 0.0)
-                && !values.iter().any(|v| v.value == "identity"));
+                && !values.iter().any(is_identity));
 
         if self.compress == CompressPreference::None {
             // We won't compress, so identity is the only option also here.
